@@ -49,9 +49,16 @@ def main():
         if not ok:
             print(log[-2000:])
             rc = 1
+    # white-box accessor files (non-test, build tag verif) that live in packages other than the one under test
+    access = {}
+    for d, _, files in os.walk(os.path.join(V.ROOT, "go", "overlay")):
+        for f in files:
+            if f == "zz_verif_access.go":
+                rel = os.path.relpath(os.path.join(d, f), os.path.join(V.ROOT, "go", "overlay"))
+                access[rel] = os.path.join(d, f)
     for pkg in GO_PKGS:
         r, out = V.go_test(pkg, [f for f in sorted(os.listdir(os.path.join(V.ROOT, "go", "overlay", pkg))) if f.endswith(".go")],
-                           "^$", timeout=1800)
+                           "^$", timeout=1800, replace=access)
         print("go warm-up %s: %s" % (pkg, "ok" if r == 0 else "FAILED"))
         if r != 0:
             print(out[-3000:])
